@@ -530,4 +530,301 @@ theorem rt_for (kw var eq : Tok) (lo : ε) (to : Tok) (hi : ε) (step : Option (
               Tree.isSome, Tree.isNone, Tree.rng, Tree.ident])
   simpa [Stmt.toks, stepToks] using hfin
 
+/-! ## if … [elseif …]* [else …] endif -/
+
+omit hX
+
+/-- the events `parse_if_block` sees after the statements of the current block -/
+def IfTail.events : IfTail ε → List Tree
+  | .endif t => [.leaf t]
+  | .els t body endT => .leaf t :: (Stmts.trees X body ++ [.leaf endT])
+  | .elif t c body tail => Tree.seq [.leaf t, X.tree c] :: (Stmts.trees X body ++ tail.events)
+
+/-- every statement list inside the tail round-trips -/
+def IfTail.AllRT : IfTail ε → Prop
+  | .endif _ => True
+  | .els _ body _ => C06.AllRT X body
+  | .elif _ _ body tail => C06.AllRT X body ∧ tail.AllRT
+
+theorem IfTail.first (tl : IfTail ε) (h : tl.WF X) : ∃ t r, tl.toks X = t :: r ∧ t.kind ∈ stmtEnds := by
+  cases tl with
+  | endif t => exact ⟨t, _, rfl, by rw [show t.kind = Kind.EndIf from h]; decide⟩
+  | els t body endT => exact ⟨t, _, rfl, by rw [h.1]; decide⟩
+  | elif t c body tail => exact ⟨t, _, rfl, by rw [h.1]; decide⟩
+
+theorem sstop_tail (tl : IfTail ε) (h : tl.WF X) (k : List Tok) : SStop (tl.toks X ++ k) := by
+  obtain ⟨t, r, ht, hs⟩ := IfTail.first X tl h
+  rw [ht]
+  exact sstop_end _ hs
+
+theorem ifLoop_cons {t : Tok} {ts k : List Tok} {v : Tree} (h : Parses (.ref nIfUntil) (t :: ts) k v) :
+    Parses (.ref nIfLoop) (t :: ts) k v :=
+  Parses.ref (n := nIfLoop) (Parses.s_ifEof_cons (a := .eps (Tree.list [])) h)
+
+theorem ifLoop_of_sstop {ts k : List Tok} {v : Tree} (hne : ts ≠ []) (h : Parses (.ref nIfUntil) ts k v) :
+    Parses (.ref nIfLoop) ts k v := by
+  cases ts with
+  | nil => exact absurd rfl hne
+  | cons t r => exact ifLoop_cons h
+
+/-- the statements of a block, then whatever the rest of the `if` yields -/
+theorem if_stmts (ss : List (Stmt ε)) (hwf : Stmts.WF X ss) (hrt : AllRT X ss) (rest k : List Tok) (evs : List Tree)
+    (hsr : SStop rest) (hrest : Parses (.ref nIfUntil) rest k (Tree.list evs)) :
+    Parses (.ref nIfUntil) (Stmts.toks X ss ++ rest) k (Tree.list (Stmts.trees X ss ++ evs)) := by
+  induction ss with
+  | nil => simpa [Stmts.toks, Stmts.trees] using hrest
+  | cons s tl ih =>
+    obtain ⟨t, r, ht, hs⟩ := Stmt.first X s hwf.1
+    have hs' := hrt s List.mem_cons_self _ (sstop_stmts X tl hwf.2 _ hsr)
+    have ih' := ih hwf.2 (fun x hx => hrt x (List.mem_cons_of_mem _ hx))
+    simp only [Stmts.toks, Stmts.trees, List.append_assoc]
+    rw [ht] at hs' ⊢
+    simp only [List.cons_append] at hs' ⊢
+    have hm (ks : List Kind) (hks : ∀ x ∈ ks, x ∈ stmtEnds) := not_contains_of_sub hks hs
+    have hc := startOK_comment hs
+    have h5 := Parses.map (fn := fun v => Tree.list (optList (v.nth 0) ++ (v.nth 1).kids))
+      (Parses.seq (Parses.s_recover (m := .skipTok) hs') ih')
+    have h4 := Parses.map (fn := fun v : Tree => if v.kind == "#seq" then Tree.list [v.nth 0] else v)
+      (Parses.s_ifTok_miss (a := .eps Tree.none) hc (hm [Kind.EndIf, Kind.End] (by decide)) h5)
+    have h3 := Parses.map (fn := fun v : Tree => if v.kind == "#seq" then Tree.list (v.nth 0 :: (v.nth 1).kids) else v)
+      (Parses.s_ifTok_miss (a := .ref nIfLoop) hc (hm [Kind.Else] (by decide)) h4)
+    have h1 := Parses.map (fn := fun v : Tree => if v.kind == "#seq" then
+                      let c := v.nth 1
+                      Tree.list (Tree.seq [v.nth 0, (c.nth 0).nth 0] :: c.kids.drop 1)
+                    else v)
+      (Parses.s_ifTok_miss
+        (a := .map (fun v => Tree.list (Tree.seq [v.nth 0] :: (v.nth 1).kids)) (.seq (.ref nExpr) (.ref nIfLoop)))
+        hc (hm [Kind.ElseIf] (by decide)) h3)
+    exact Parses.ref (n := nIfUntil) (Parses.s_ifEof_cons (a := .eps (Tree.list [noEnd])) (h1.s_to (by
+      simp [Tree.nth, Tree.seq, Tree.kids, Tree.list, Tree.kind, optList_ok (Stmt.tree_ok X s hwf.1)])))
+
+theorem if_end (t : Tok) (ht : t.kind = Kind.EndIf) (k : List Tok) :
+    Parses (.ref nIfUntil) (t :: k) k (Tree.list [.leaf t]) := by
+  have hc : t.kind ≠ Kind.Comment := by rw [ht]; decide
+  have h4 := Parses.map (fn := fun v : Tree => if v.kind == "#seq" then Tree.list [v.nth 0] else v)
+    (Parses.s_ifTok_hit (ks := [Kind.EndIf, Kind.End]) (a := .eps Tree.none)
+      (b := .map (fun v => Tree.list (optList (v.nth 0) ++ (v.nth 1).kids))
+        (.seq (.recover .skipTok (.ref nStatement)) (.ref nIfUntil)))
+      hc (by rw [ht]; decide) (Parses.eps (ts := k)))
+  have h3 := Parses.map (fn := fun v : Tree => if v.kind == "#seq" then Tree.list (v.nth 0 :: (v.nth 1).kids) else v)
+    (Parses.s_ifTok_miss (ks := [Kind.Else]) (a := .ref nIfLoop) hc (by rw [ht]; decide) h4)
+  have h1 := Parses.map (fn := fun v : Tree => if v.kind == "#seq" then
+                    let c := v.nth 1
+                    Tree.list (Tree.seq [v.nth 0, (c.nth 0).nth 0] :: c.kids.drop 1)
+                  else v)
+    (Parses.s_ifTok_miss (ks := [Kind.ElseIf])
+      (a := .map (fun v => Tree.list (Tree.seq [v.nth 0] :: (v.nth 1).kids)) (.seq (.ref nExpr) (.ref nIfLoop)))
+      hc (by rw [ht]; decide) h3)
+  exact Parses.ref (n := nIfUntil) (Parses.s_ifEof_cons (a := .eps (Tree.list [noEnd])) (h1.s_to rfl))
+
+include hX
+
+/-- the rest of an `if` after the statements of a block -/
+theorem if_tail : (tl : IfTail ε) → tl.WF X → tl.AllRT X → ∀ k : List Tok,
+    Parses (.ref nIfUntil) (tl.toks X ++ k) k (Tree.list (tl.events X))
+  | .endif t, hwf, _, k => if_end t hwf k
+  | .els t body endT, hwf, hrt, k => by
+    obtain ⟨ht, hb, he⟩ := hwf
+    have hc : t.kind ≠ Kind.Comment := by rw [ht]; decide
+    have hin := if_stmts X body hb hrt (endT :: k) k [.leaf endT] (sstop_end k (by rw [he]; decide)) (if_end endT he k)
+    have hloop : Parses (.ref nIfLoop) (Stmts.toks X body ++ endT :: k) k (Tree.list (Stmts.trees X body ++ [.leaf endT])) :=
+      ifLoop_of_sstop (by simp) hin
+    have h3 := Parses.map (fn := fun v : Tree => if v.kind == "#seq" then Tree.list (v.nth 0 :: (v.nth 1).kids) else v)
+      (Parses.s_ifTok_hit (ks := [Kind.Else])
+        (b := .map (fun v : Tree => if v.kind == "#seq" then Tree.list [v.nth 0] else v)
+              (.ifTok [Kind.EndIf, Kind.End] (.eps Tree.none)
+                (.map (fun v => Tree.list (optList (v.nth 0) ++ (v.nth 1).kids))
+                  (.seq (.recover .skipTok (.ref nStatement)) (.ref nIfUntil)))))
+        hc (by rw [ht]; decide) hloop)
+    have h1 := Parses.map (fn := fun v : Tree => if v.kind == "#seq" then
+                      let c := v.nth 1
+                      Tree.list (Tree.seq [v.nth 0, (c.nth 0).nth 0] :: c.kids.drop 1)
+                    else v)
+      (Parses.s_ifTok_miss (ks := [Kind.ElseIf])
+        (a := .map (fun v => Tree.list (Tree.seq [v.nth 0] :: (v.nth 1).kids)) (.seq (.ref nExpr) (.ref nIfLoop)))
+        hc (by rw [ht]; decide) h3)
+    have : Parses (.ref nIfUntil) (t :: (Stmts.toks X body ++ endT :: k)) k
+        (Tree.list (.leaf t :: (Stmts.trees X body ++ [.leaf endT]))) :=
+      Parses.ref (n := nIfUntil) (Parses.s_ifEof_cons (a := .eps (Tree.list [noEnd])) (h1.s_to (by
+        simp [Tree.nth, Tree.seq, Tree.kids, Tree.list, Tree.kind])))
+    simpa [IfTail.toks, IfTail.events] using this
+  | .elif t c body tail, hwf, hrt, k => by
+    obtain ⟨ht, hce, hb, htl⟩ := hwf
+    obtain ⟨hw, _⟩ := exprOK_split X hce
+    have hc : t.kind ≠ Kind.Comment := by rw [ht]; decide
+    have hst : SStop (tail.toks X ++ k) := sstop_tail X tail htl k
+    have hin := if_stmts X body hb hrt.1 (tail.toks X ++ k) k (tail.events X) hst (if_tail tail htl hrt.2 k)
+    have hne : Stmts.toks X body ++ (tail.toks X ++ k) ≠ [] := by
+      obtain ⟨t', r', ht', _⟩ := IfTail.first X tail htl
+      simp [ht']
+    have hloop := ifLoop_of_sstop hne hin
+    have hcond := hX.parses c hw _ (sstop_stmts X body hb _ hst).stop8
+    have h2 := Parses.map (fn := fun v => Tree.list (Tree.seq [v.nth 0] :: (v.nth 1).kids)) (Parses.seq hcond hloop)
+    have h1 := Parses.map (fn := fun v : Tree => if v.kind == "#seq" then
+                      let c := v.nth 1
+                      Tree.list (Tree.seq [v.nth 0, (c.nth 0).nth 0] :: c.kids.drop 1)
+                    else v)
+      (Parses.s_ifTok_hit (ks := [Kind.ElseIf])
+        (b := .map (fun v : Tree => if v.kind == "#seq" then Tree.list (v.nth 0 :: (v.nth 1).kids) else v)
+          (.ifTok [Kind.Else] (.ref nIfLoop)
+            (.map (fun v : Tree => if v.kind == "#seq" then Tree.list [v.nth 0] else v)
+              (.ifTok [Kind.EndIf, Kind.End] (.eps Tree.none)
+                (.map (fun v => Tree.list (optList (v.nth 0) ++ (v.nth 1).kids))
+                  (.seq (.recover .skipTok (.ref nStatement)) (.ref nIfUntil)))))))
+        hc (by rw [ht]; decide) h2)
+    have : Parses (.ref nIfUntil) (t :: (X.toks c ++ (Stmts.toks X body ++ (tail.toks X ++ k)))) k
+        (Tree.list (Tree.seq [.leaf t, X.tree c] :: (Stmts.trees X body ++ tail.events X))) :=
+      Parses.ref (n := nIfUntil) (Parses.s_ifEof_cons (a := .eps (Tree.list [noEnd])) (h1.s_to (by
+        simp [Tree.nth, Tree.seq, Tree.kids, Tree.list, Tree.kind])))
+    simpa [IfTail.toks, IfTail.events] using this
+
+/-! ### the fold of `parse_if_block` over the events is the intended list of blocks -/
+
+omit hX
+
+theorem Stmts.trees_ok (ss : List (Stmt ε)) (h : Stmts.WF X ss) : ∀ t ∈ Stmts.trees X ss, okTree t = true := by
+  induction ss with
+  | nil => intro t ht; simp [Stmts.trees] at ht
+  | cons s rest ih =>
+    intro t ht
+    simp only [Stmts.trees, List.mem_cons] at ht
+    rcases ht with rfl | ht
+    · exact Stmt.tree_ok X s h.1
+    · exact ih h.2 t ht
+
+theorem fold_stmts (ts : List Tree) (h : ∀ t ∈ ts, okTree t = true) (acc : IfAcc) :
+    ts.foldl ifFold acc = { acc with stmts := acc.stmts ++ ts } := by
+  induction ts generalizing acc with
+  | nil => simp
+  | cons t rest ih =>
+    rw [List.foldl_cons, okTree_ifFold (h t List.mem_cons_self), ih (fun x hx => h x (List.mem_cons_of_mem _ hx))]
+    simp
+
+theorem ifFold_end (acc : IfAcc) (t : Tok) (ht : t.kind = Kind.EndIf) :
+    ifFold acc (.leaf t) = { acc with curRaw := updRange acc.curRaw acc.cond acc.stmts, endTok := some (.leaf t) } := by
+  simp [ifFold, ht]
+
+theorem ifFold_else (acc : IfAcc) (t : Tok) (ht : t.kind = Kind.Else) :
+    ifFold acc (.leaf t) = { acc with done := acc.done ++ [ifBlock acc.curRaw acc.cond acc.stmts],
+                                      curTok := t.rng, curRaw := t.rng, cond := none, stmts := [] } := by
+  simp [ifFold, ht, ifBlock]
+
+theorem ifFold_elseif (acc : IfAcc) (t : Tok) (c : Tree) :
+    ifFold acc (Tree.seq [.leaf t, c]) = { acc with done := acc.done ++ [ifBlock acc.curRaw acc.cond acc.stmts],
+                                                    curTok := t.rng, curRaw := t.rng, cond := some c, stmts := [] } := rfl
+
+/-- the blocks and the end token `parse_if_block` reads off the folded state -/
+def ifResult (a : IfAcc) : List Tree × Option Tree := (a.done ++ [condBlock a.curRaw a.cond a.stmts], a.endTok)
+
+theorem fold_events : (tl : IfTail ε) → tl.WF X → (acc : IfAcc) →
+    ifResult ((tl.events X).foldl ifFold acc) =
+      (acc.done ++ tl.blocks X acc.curRaw acc.cond acc.stmts, some (.leaf tl.endTok))
+  | .endif t, hwf, acc => by
+    simp [IfTail.events, ifFold_end acc t hwf, ifResult, IfTail.blocks, ifBlock, IfTail.endTok]
+  | .els t body endT, hwf, acc => by
+    obtain ⟨ht, hb, he⟩ := hwf
+    simp only [IfTail.events, List.foldl_cons, List.foldl_append, List.foldl_nil]
+    rw [ifFold_else acc t ht, fold_stmts _ (Stmts.trees_ok X body hb), ifFold_end _ endT he]
+    simp [ifResult, IfTail.blocks, ifBlock, IfTail.endTok]
+  | .elif t c body tail, hwf, acc => by
+    obtain ⟨ht, _, hb, htl⟩ := hwf
+    simp only [IfTail.events, List.foldl_cons, List.foldl_append]
+    rw [ifFold_elseif, fold_stmts _ (Stmts.trees_ok X body hb), fold_events tail htl]
+    simp [IfTail.blocks, IfTail.endTok]
+
+theorem events_noend (tl : IfTail ε) (hwf : tl.WF X) : ∀ e ∈ tl.events X, (e.kind == "#noend") = false := by
+  have hleaf : ∀ (t : Tok), t.kind ∈ stmtEnds → ((Tree.leaf t).kind == "#noend") = false := by
+    intro t ht
+    simp only [Tree.kind]
+    generalize t.kind = x at ht
+    revert x
+    decide +kernel
+  match tl, hwf with
+  | .endif t, hwf =>
+    intro e he
+    simp only [IfTail.events, List.mem_cons, List.not_mem_nil, or_false] at he
+    subst he
+    exact hleaf t (by rw [show t.kind = Kind.EndIf from hwf]; decide)
+  | .els t body endT, hwf =>
+    intro e he
+    simp only [IfTail.events, List.mem_cons, List.mem_append, List.not_mem_nil, or_false] at he
+    rcases he with rfl | he | rfl
+    · exact hleaf t (by rw [hwf.1]; decide)
+    · exact okTree_noend (Stmts.trees_ok X body hwf.2.1 e he)
+    · exact hleaf endT (by rw [hwf.2.2]; decide)
+  | .elif t c body tail, hwf =>
+    intro e he
+    simp only [IfTail.events, List.mem_cons, List.mem_append] at he
+    rcases he with rfl | he | he
+    · rfl
+    · exact okTree_noend (Stmts.trees_ok X body hwf.2.2.1 e he)
+    · exact events_noend tail hwf.2.2.2 e he
+
+include hX
+
+theorem rt_if (kw : Tok) (c : ε) (body : List (Stmt ε)) (tail : IfTail ε) (h : (Stmt.ifS kw c body tail).WF X)
+    (hrt : AllRT X body) (hrtt : tail.AllRT X) : StmtRT X (.ifS kw c body tail) := by
+  intro k hk
+  obtain ⟨hkw, hc, hb, htl⟩ := h
+  obtain ⟨hw, _⟩ := exprOK_split X hc
+  have hcm : kw.kind ≠ Kind.Comment := by rw [hkw]; decide
+  have hst : SStop (tail.toks X ++ k) := sstop_tail X tail htl k
+  have hin := if_stmts X body hb hrt (tail.toks X ++ k) k (tail.events X) hst (if_tail X hX tail htl hrtt k)
+  have hne : Stmts.toks X body ++ (tail.toks X ++ k) ≠ [] := by
+    obtain ⟨t', r', ht', _⟩ := IfTail.first X tail htl
+    simp [ht']
+  have hloop := ifLoop_of_sstop hne hin
+  have hcond := hX.parses c hw _ (sstop_stmts X body hb _ hst).stop8
+  have hseq := Parses.seqL (ParsesList.cons (Parses.tok hkw) (ParsesList.cons hcond (ParsesList.cons hloop ParsesList.nil)))
+  have hemit := Parses.s_emit (fn := fun v =>
+        if (v.nth 2).kids.any (fun e => e.kind == "#noend")
+        then some ⟨(v.nth 0).rng, "no end token found"⟩ else none) hseq (by
+      have : (Stmts.trees X body ++ tail.events X).any (fun e => e.kind == "#noend") = false := by
+        rw [List.any_eq_false]
+        intro e he
+        rcases List.mem_append.mp he with he | he
+        · simp [okTree_noend (Stmts.trees_ok X body hb e he)]
+        · simp [events_noend X tail htl e he]
+      simp [Tree.nth, Tree.seq, Tree.kids, Tree.list, this])
+  have hfold := fold_events X tail htl
+    { curTok := kw.rng, curRaw := Range.span kw.rng kw.rng, cond := some (X.tree c), stmts := Stmts.trees X body }
+  have hg : Parses gIf (kw :: (X.toks c ++ (Stmts.toks X body ++ (tail.toks X ++ k)))) k (Stmt.tree X (.ifS kw c body tail)) :=
+    (Parses.map hemit).s_to (by
+      simp only [ifResult, Prod.mk.injEq] at hfold
+      simp only [Tree.nth, Tree.seq, Tree.kids, Tree.list, List.getElem?_cons_zero, List.getElem?_cons_succ,
+        Option.getD_some, List.foldl_append, Stmt.tree, Tree.rng]
+      rw [fold_stmts _ (Stmts.trees_ok X body hb)]
+      simp only [List.nil_append]
+      rw [hfold.1, hfold.2]
+      simp)
+  have hfin := stmt_via 0 gIf [gFor, gForEach, gWhile, gLoop, gSwitch, gRepeat, gComment, gUses, gConstDecl, gTypeDecl,
+    gLocalVar, gControl, .ref nOqlExpr, gAssignment, .ref nExpr] rfl kw _ k _ hcm (by intro p hp; cases hp) hg
+  simpa [Stmt.toks] using hfin
+
+/-! ## every well-formed statement round-trips: induction over the syntax -/
+
+mutual
+theorem stmt_rt : (s : Stmt ε) → s.WF X → StmtRT X s
+  | .assign lhs op e, h => rt_assign X hX lhs op e h
+  | .expr e, h => rt_expr X hX e h
+  | .ret kw e, h => rt_ret X hX kw e h
+  | .ctl kw, h => rt_ctl X kw h
+  | .lvar kw name colon ty, h => rt_lvar X kw name colon ty h
+  | .ifS kw c body tail, h => rt_if X hX kw c body tail h (stmts_rt body h.2.2.1) (tail_rt tail h.2.2.2)
+  | .whileS kw c body endT, h => rt_while X hX kw c body endT h (stmts_rt body h.2.2.1)
+  | .loopS kw body endT, h => rt_loop X kw body endT h (stmts_rt body h.2.1)
+  | .forS kw var eq lo to hi step body endT, h =>
+    rt_for X hX kw var eq lo to hi step body endT h (stmts_rt body h.2.2.2.2.2.2.2.1)
+theorem stmts_rt : (ss : List (Stmt ε)) → Stmts.WF X ss → AllRT X ss
+  | [], _ => fun _ hs => by cases hs
+  | s :: rest, h => fun x hx =>
+    match List.mem_cons.mp hx with
+    | .inl e => e ▸ stmt_rt s h.1
+    | .inr hx => stmts_rt rest h.2 x hx
+theorem tail_rt : (tl : IfTail ε) → tl.WF X → tl.AllRT X
+  | .endif _, _ => trivial
+  | .els _ body _, h => stmts_rt body h.2.1
+  | .elif _ _ body tail, h => ⟨stmts_rt body h.2.2.1, tail_rt tail h.2.2.2⟩
+end
+
 end Gold.C06
